@@ -109,6 +109,38 @@ TABLE = {
 }
 
 
+def _input_class_variants():
+    """For every table entry whose first argument is a square non-negative connection matrix, two more entries: the
+    same call on a matrix with two of its connections made negative (symmetry kept), and on one with self-connections.
+    A routine may treat such input on a different code path (hand it to a signed variant, strip the diagonal, raise);
+    the seed contract is the same on every path."""
+    for name, entries in list(TABLE.items()):
+        if not isinstance(entries, list) or name in ('consensus_und', 'generative_model', 'evaluate_generative_model'):
+            continue
+        extra = []
+        for a, kw in entries:
+            M = a[0] if a else None
+            if not (isinstance(M, np.ndarray) and M.ndim == 2 and M.shape[0] == M.shape[1] and M.shape[0] >= 3
+                    and M.dtype.kind == 'f' and M.any() and not (M < 0).any()):
+                continue
+            sym = np.array_equal(M, M.T)
+            S = M.copy()
+            cells = [(i, j) for i in range(len(M)) for j in range(len(M)) if i != j and M[i, j] != 0 and (i < j or not sym)]
+            for (i, j) in cells[:2]:
+                S[i, j] = -S[i, j]
+                if sym:
+                    S[j, i] = S[i, j]
+            Dg = M.copy()
+            np.fill_diagonal(Dg, [1.0 + (k % 2) for k in range(len(M))])
+            extra.append(((S,) + tuple(a[1:]), kw))
+            extra.append(((Dg,) + tuple(a[1:]), kw))
+            break           # one pair of variants per routine
+        entries.extend(extra)
+
+
+_input_class_variants()
+
+
 def seed_accepting():
     out = []
     for name in sorted(dir(bct)):
